@@ -427,5 +427,98 @@ def replay_C19(w, clause):
     return {"reproduced": False, "detail": "history has no effect on the real code"}
 
 
+def replay_C08(w, clause):
+    from .props import c08
+
+    if "facts" in w:
+        rows = c08.payload_rows()
+        bad = []
+        for r in rows:
+            if r["type"] == "request":
+                want = 0 if (r["key"] == 7 and r["version"] == 0) else (2 if r["flexible"] else 1)
+                if w["facts"] == "request_header_follows_rule" and (r["header_kind"] != "request_header" or r["header_version"] != want):
+                    bad.append(r)
+            else:
+                want = 0 if r["key"] == 18 else (1 if r["flexible"] else 0)
+                if w["facts"] == "response_header_follows_rule" and (r["header_kind"] != "response_header" or r["header_version"] != want):
+                    bad.append(r)
+        by = {}
+        for r in rows:
+            by.setdefault((r["api"], r["version"]), {})[r["type"]] = r
+        for (api, v), d in by.items():
+            if w["facts"] == "request_and_response_share_key_and_flexibility" and len(d) == 2 and (
+                    d["request"]["key"] != d["response"]["key"] or d["request"]["flexible"] != d["response"]["flexible"]):
+                bad.append(d["request"])
+            if w["facts"] == "every_request_has_a_response" and "response" not in d:
+                bad.append(d["request"])
+            if w["facts"] == "every_response_has_a_request" and "request" not in d:
+                bad.append(d["response"])
+        if bad:
+            from . import shapes
+
+            return {"reproduced": True, "sig": {"kind": "facts", "rule": w["facts"]}, "detail": f"{w['facts']} broken by {shapes.class_id(bad[0]['cls'])} (+{len(bad) - 1} more)"}
+        return {"reproduced": False, "detail": "rule holds on the real classes"}
+    import kio.index as ki
+
+    truth = c08.truth_table()
+    fwd = ki.load_response_from_request if w["direction"] == "req->resp" else ki.load_request_from_response
+    t_to = "response" if w["direction"] == "req->resp" else "request"
+    key, ver = w["key"], w["version"]
+    try:
+        cls = fwd(c08.StandIn(key, ver))
+    except ki.UnknownAPIKey:
+        ok = all(k != key for (k, v, t) in truth)
+        return {"reproduced": not ok, "sig": {"kind": "UnknownAPIKey_for_known_key"}, "detail": f"key {key}"}
+    except ki.UnknownEntity:
+        ok = any(k == key for (k, v, t) in truth) and (key, ver, t_to) not in truth
+        return {"reproduced": not ok, "sig": {"kind": "UnknownEntity_wrong"}, "detail": f"key {key} version {ver}"}
+    except Exception as e:
+        return {"reproduced": True, "sig": {"kind": "undocumented_error", **_exc_sig(e)}, "detail": f"key {key} version {ver}: {type(e).__name__}: {e}"}
+    if truth.get((key, ver, t_to)) is not cls:
+        return {"reproduced": True, "sig": {"kind": "wrong_class"}, "detail": f"key {key} version {ver}: returned {cls!r}"}
+    return {"reproduced": False, "detail": "correct class"}
+
+
+def replay_C09(w, clause):
+    from .props import c09
+
+    if "facts" in w:
+        res, _, _ = c09.facts()
+        for name, ok, detail in res:
+            if name == w["facts"]:
+                return {"reproduced": ok is False, "sig": {"kind": "facts", "rule": name}, "detail": f"{name}: {detail}"}
+        return {"reproduced": None, "error": "unknown facts query"}
+    import kio.index as ki
+    from kio.static.constants import EntityType
+
+    T = c09.truth()
+    kn = c09.key_names()
+    f = getattr(ki, w["fn"])
+    et = EntityType[w["etype"]]
+    key, ver, name = w.get("key"), w["version"], w.get("name")
+    if name is None:
+        names = kn.get(key)
+        name = sorted(names)[0] if names else None
+    try:
+        if w["fn"] in ("load_request_schema", "load_response_schema"):
+            res = f(key, ver)
+        elif w.get("name") is None:
+            res = f(key, ver, et)
+        else:
+            res = f(w["name"], ver, et)
+    except ki.UnknownAPIKey:
+        ok = w.get("name") is None and key not in kn
+        return {"reproduced": not ok, "sig": {"kind": "UnknownAPIKey_wrong"}, "detail": f"{w}"}
+    except ki.UnknownEntity:
+        ok = name is not None and (name, ver, w["etype"]) not in T
+        return {"reproduced": not ok, "sig": {"kind": "UnknownEntity_wrong"}, "detail": f"{w}"}
+    except Exception as e:
+        return {"reproduced": True, "sig": {"kind": "undocumented_error", **_exc_sig(e)}, "detail": f"{w}: {type(e).__name__}: {e}"}
+    want = T.get((name, ver, w["etype"]))
+    if want is None or (res is not want[0] and res is not want[1]):
+        return {"reproduced": True, "sig": {"kind": "wrong_result"}, "detail": f"{w}: returned {res!r}"}
+    return {"reproduced": False, "detail": "correct"}
+
+
 if __name__ == "__main__":
     sys.exit(main(sys.argv[1:]))
